@@ -1306,6 +1306,10 @@ def run(chk):
                               ((24, 16), (8, 8), "#tsl.tsl<[8] -> (8), [8] -> (1)>"), ((16, 16), (4, 8), "#tsl.tsl<[4] -> (8), [8] -> (1)>")):
         for offs in ((0, 0), (tile[0] if gshape[0] > tile[0] else 0, tile[1] if gshape[1] > tile[1] else 0)):
             sg.append((gshape, tile, lay, offs, False))
+    # tiles that do not start on a tile boundary of the new layout
+    sg.append(((16, 16), (8, 16), "#tsl.tsl<[8] -> (8), [2, 8] -> (64, 1)>", (4, 0), False))
+    sg.append(((16, 16), (8, 8), "#tsl.tsl<[8] -> (8), [8] -> (1)>", (4, 8), False))
+    sg.append(((8, 8), (4, 4), "#tsl.tsl<[4] -> (4), [4] -> (1)>", (2, 0), True))
     # with an initial value (smaller: the contents are a z3 array addressed by the symbolic index)
     for gshape, tile, lay in (((8, 8), (4, 4), "#tsl.tsl<[4] -> (4), [4] -> (1)>"), ((8, 8), (4, 4), "#tsl.tsl<[2, 2] -> (8, 2), [2, 2] -> (4, 1)>"),
                               ((8, 4), (4, 4), "#tsl.tsl<[4] -> (1), [4] -> (4)>"), ((4, 16), (4, 4), "#tsl.tsl<[4] -> (4), [2, 2] -> (2, 1)>"),
